@@ -1,4 +1,5 @@
 """C09 — cross-references alias their target, in any order, and always terminate."""
+import os
 from props.evalfam import *
 
 def get_val(v, path):
@@ -109,7 +110,35 @@ class C09(EvalFamProp):
                 items.append((nm, Stext(text, 'xref') if rng.random() < 0.7 else M([(0, Stext(text, 'xref'))], tag={'k': 'call', 'f': 'rec.f'})))
             rng.shuffle(items)
             out[(len(out) - 1 - i) % len(out)] = {'docs': [{'raw': M(items)}], 'style': ['flow', 0, 0]}
+        # references INTO the content of a lazily included file (`data: !rec data.yaml`, `x: !xref data.train`): the target exists only
+        # once the file has been evaluated; the reference yields that very object (seeded change S9-C09: the chain was followed on the
+        # un-evaluated tree). !rec is outside the model: oracle only.
+        for i in range(max(2, n // 40)):
+            inner = rng.choice(['train', 'opts'])
+            items = [('data', Stext('data.yaml', 'rec', txt='!rec')), ('x', Stext('data.' + inner, 'xref')), ('k', S(1))]
+            if rng.random() < 0.5:
+                items.append(('y', Stext('x', 'xref')))
+            rng.shuffle(items)
+            # (the !rec key first: a reference that is evaluated BEFORE the lazily included file fails on the unchanged code too - the
+            # target path does not exist yet; lazy includes are outside the domains, DESIGN section 7 "observed")
+            items.sort(key=lambda kv: kv[0] != 'data')
+            out.append({'docs': [{'raw': M(items), 'shared': True}], 'style': ['flow', 0, 0], 'recfam': inner,
+                        'files': {'data.yaml': '%s: {lr: 1, l: [1, 2]}\nother: 3\n' % inner}})
         return out
+
+    def impl(self, case):
+        if case.get('files'):
+            import tempfile, shutil
+            d = tempfile.mkdtemp(prefix='ayc09_'); old = os.getcwd()
+            try:
+                for name, text in case['files'].items():
+                    with open(os.path.join(d, name), 'w') as f:
+                        f.write(text)
+                os.chdir(d)
+                return super().impl(case)
+            finally:
+                os.chdir(old); shutil.rmtree(d, ignore_errors=True)
+        return super().impl(case)
 
     def model_requests(self, case):
         if any(d.get('shared') for d in case['docs']):
@@ -130,6 +159,19 @@ class C09(EvalFamProp):
         cfg = io['cfg']
         if cfg.get('err') == 'HANG':
             return 'evaluation did not terminate (watchdog)'
+        if case.get('recfam'):
+            keys = [sc_py(k) for k, _ in case['docs'][0]['raw'].get('m', [])]
+            if not keys or keys[0] != 'data' or 'x' not in keys or '!rec' not in json.dumps(case['docs']):
+                return None       # (shrunk) out of the family
+            if 'ok' not in cfg:
+                return ('a reference into the content of a lazily included file must resolve once the file is evaluated: '
+                        + json.dumps({k: v for k, v in cfg.items() if k != 'log'})[:160])
+            d = dict((sc_py(k), v) for k, v in cfg['ok']['d'])
+            data = dict((sc_py(k), v) for k, v in d['data']['d']) if isinstance(d.get('data'), dict) and 'd' in d['data'] else {}
+            for nm in ('x', 'y'):
+                if nm in d and d[nm] != data.get(case['recfam']):
+                    return f'the reference {nm} into the content of a lazily included file is not the object evaluated there'
+            return None
         nodes = io.get('nodes')
         if nodes is None:
             return None
